@@ -283,10 +283,11 @@ fn most_abundant_length<IntT: for<'a> UInt<'a>>(vec_variants: &[Vec<IntT>]) -> O
         *length_counts.entry(variant.len()).or_insert(0) += 1;
     }
 
-    // find the length with the maximum count
+    // find the length with the maximum count (the shortest one if several lengths are as frequent,
+    // so that the choice does not depend on the iteration order of the map)
     length_counts
         .into_iter()
-        .max_by_key(|&(_, count)| count)
+        .max_by_key(|&(length, count)| (count, std::cmp::Reverse(length)))
         .map(|(length, _)| length)
 }
 
